@@ -217,6 +217,12 @@ fn push_signs(pat: &mut Pat, t: &Tensor) {
     }
 }
 fn push_max(pat: &mut Pat, t: &Tensor) {
+    // the pooling layers inside a feedback block: one optional entry per unrolled layer
+    if let Data::NestedOptional(inner) = &t.data {
+        for m in inner.iter().flatten() {
+            push_max(pat, m);
+        }
+    }
     if let Data::Quintuple(q) = &t.data {
         for a in q {
             for b in a {
@@ -1312,6 +1318,18 @@ fn block_layers(rng: &mut Rng, inp: Sh, nl: usize, acts: &[Act], with_pool: bool
             }
         }
         Sh::Sp(c, h, w) => {
+            // with_pool, half of the time: a max-pool with a real window - a 2x2 deconvolution grows the
+            // image by one, the 2x2 / stride 1 pool shrinks it back (optionally a 1x3 "same" convolution after it)
+            if with_pool && rng.coin() {
+                let smooth = [Act::Tanh, Act::Sigmoid, Act::Linear];
+                let f = if nl == 2 { c } else { rng.range(1, 2) };
+                ls.push(Simple::Deconv { filters: f, kernel: (2, 2), stride: (1, 1), padding: (0, 0), act: *rng.pick(&smooth), dropout: None });
+                ls.push(Simple::Maxpool { kernel: (2, 2), stride: (1, 1) });
+                if nl > 2 {
+                    ls.push(Simple::Conv { filters: c, kernel: (1, 3), stride: (1, 1), padding: (0, 1), dilation: (1, 1), act: *rng.pick(&smooth), dropout: None });
+                }
+                return ls;
+            }
             // with_pool: a 1x1 max-pool at position 1; it keeps the channel count of the layer before it
             for k in 0..nl {
                 if with_pool && k == 1 {
@@ -1339,7 +1357,7 @@ fn block_layers(rng: &mut Rng, inp: Sh, nl: usize, acts: &[Act], with_pool: bool
 fn job_net_feedback(rng: &mut Rng, variant: usize, kmax: usize) -> Fals {
     let mut f = Fals::new();
     let loops = 1 + variant % 3;
-    let with_pool = variant % 16 == 15;
+    let with_pool = variant % 8 == 7;
     for _ in 0..10 {
         let spatial = rng.coin() || with_pool;
         let acts: &[Act] = if rng.chance(1, 4) { &ELEMENTWISE } else { &SMOOTH };
@@ -1393,7 +1411,7 @@ fn job_net_feedback(rng: &mut Rng, variant: usize, kmax: usize) -> Fals {
         let bpos = if prefix { 1 } else { 0 };
         let key = |a: PAddr, _: &'static str| {
             let role = if a.layer == bpos { "block-params" } else if a.layer < bpos { "params-of-earlier-layers" } else { "params-of-later-layers" };
-            Some(if with_pool { format!("net/feedback-with-1x1-maxpool/{}", role) }
+            Some(if with_pool { format!("net/feedback-with-maxpool/{}", role) }
                  else if two_blocks { format!("net/two-feedback-blocks/{}", role) }
                  else { format!("net/feedback/loops={}/{}", loops, role) })
         };
